@@ -742,13 +742,38 @@ func (b *builder) buildC13() {
 		c.Cfg.ParCap = b.r.PickInt(-1, 0, 1, 2, 3)
 	}
 	c.ShadowAmple = true
-	if b.r.Chance(1, 4) {
-		// a re-used object: the caller's windows must survive Reset()/Init() too
-		c.Obj = 0
-		c.ResetBy = b.r.Intn(2)
-	}
 	if b.r.Chance(1, 5) {
 		c.Junk = b.junk(12)
+	}
+	if b.r.Chance(1, 4) {
+		// a re-used object: the result must not depend on the capacities after a reset either,
+		// whatever the earlier uses ended in (complete, failed, abandoned) - 2..4 uses in a row
+		c.Obj = 0
+		c.ResetBy = b.r.Intn(2)
+		var plans []connPlan
+		t := int64(0)
+		uses := b.r.Range(2, 4)
+		for i := 0; i < uses; i++ {
+			u := c
+			if i > 0 {
+				u.Junk = nil
+				if kind == "msg" {
+					u.Msgs, u.Raw = nil, nil
+					o := gen.MsgOpts{Request: -1, CL: gen.CLAny, BodyMax: 60, MaxHdrs: b.r.PickInt(0, 0, 10, 30)}
+					b.msgStream(&u, 25, o, 2)
+				} else {
+					n := b.subConn(kind, 25)
+					u.Raw, u.Clean = n.Raw, n.Clean
+				}
+			}
+			limitStream(&u)
+			s := u.Stream()
+			b.sc.Conns = append(b.sc.Conns, u)
+			plans = append(plans, connPlan{conn: i, cuts: b.cuts(s, b.pickSched(len(s))), end: b.r.PickInt(endAbort, endEOFEarly, endEOFWith, endNone, endAbort), t0: t})
+			t += 100000000
+		}
+		b.schedule(plans)
+		return
 	}
 	limitStream(&c)
 	s := c.Stream()
